@@ -198,6 +198,10 @@ def build_ext(r):
         return regs.serialize(format=r['fmt'], **r.get('kw', {}))
     if t == 'mask':
         return build(r['region']).to_mask(mode=r.get('mode', 'center'))
+    if t == 'regions_dup':
+        from regions import Regions
+        regs = [build(x) for x in r['v']]
+        return Regions(regs + [regs[0]])
     if t == 'table_variant':
         # a FITS region table as other tools write it: other letter case of
         # the column names, an extra column, another column order
@@ -224,6 +228,6 @@ _build_core = build
 
 def build(r):  # noqa: F811
     if is_recipe(r) and r['t'] in ('datafile', 'serialized', 'mask',
-                                   'table_variant'):
+                                   'table_variant', 'regions_dup'):
         return build_ext(r)
     return _build_core(r)
